@@ -161,6 +161,15 @@ Theorem C05num_shr_in_range : forall sg w a b v, 0 < w -> in_range sg w a = true
 Proof. exact shr_in_range. Qed.
 Print Assumptions C05num_shr_in_range.
 
+(* the definitions evaluated by the driver are the definitions *)
+Theorem C05num_shl_spec_exec : forall sg w a b, 0 < w -> spec_shl_exec sg w a b = spec_shl sg w a b.
+Proof. exact spec_shl_exec_eq. Qed.
+Print Assumptions C05num_shl_spec_exec.
+
+Theorem C05num_shr_spec_exec : forall sg w a b, 0 < w -> in_range sg w a = true -> spec_shr_exec sg w a b = spec_shr sg w a b.
+Proof. exact spec_shr_exec_eq. Qed.
+Print Assumptions C05num_shr_spec_exec.
+
 Theorem C05num_shift_witnesses :
   impl_shr Signed 8 (-1) 8 = Ok 0 /\ spec_shr Signed 8 (-1) 8 = Ok (-1) /\ impl_shr Signed 8 (-1) 7 = Ok (-1) /\
   impl_shl Signed 8 1 7 = Ok (-128) /\ impl_shl Signed 8 1 8 = Ok 0 /\ impl_shl Signed 32 1 (-1) = Ok 0 /\
@@ -217,3 +226,15 @@ Theorem C05num_dec_fn_refuted :
   spec_dec_fn FFloor 9007199254740993 0 = Some (FInt false 9007199254740993).
 Proof. exact dec_fn_refuted. Qed.
 Print Assumptions C05num_dec_fn_refuted.
+
+Theorem C05num_dec_fn_abs_refuted :
+  impl_dec_fn FAbs (-975) 38 = Some (FBits 4083053478943854748) /\ spec_dec_fn FAbs (-975) 38 = Some (FBits 4083053478943854747).
+Proof. exact dec_fn_abs_refuted. Qed.
+Print Assumptions C05num_dec_fn_abs_refuted.
+
+(* ---- 8. comparisons across integer types: the definition the engine is compared with *)
+Theorem C05num_cmp_spec_reflects : forall a b,
+  (spec_cmp CLt a b = true <-> a < b) /\ (spec_cmp CLe a b = true <-> a <= b) /\ (spec_cmp CEq a b = true <-> a = b) /\
+  (spec_cmp CNe a b = true <-> a <> b) /\ (spec_cmp CGe a b = true <-> a >= b) /\ (spec_cmp CGt a b = true <-> a > b).
+Proof. exact spec_cmp_reflects. Qed.
+Print Assumptions C05num_cmp_spec_reflects.
